@@ -97,6 +97,12 @@ impl Area for FallArea {
                     class(move || { if fail { let mut w = FailWriter; if text { TextEncoder::new().encode(&fl, &mut w) } else { ProtobufEncoder::new().encode(&fl, &mut w) } } else { let mut w = Vec::new(); if text { TextEncoder::new().encode(&fl, &mut w) } else { ProtobufEncoder::new().encode(&fl, &mut w) } } }) }
                 _ => "bad-op".into(),
             };
+            // ---- oracle for the vector lookups (independent of the model): a request is well-formed exactly when it gives one value per
+            // declared label (map form: exactly the declared names); everything else is invalid input and must be refused with Err
+            if p[1] == "vec" { let names = unhex_list(field(&p, "names").unwrap()); let arg = field(&p, "arg").unwrap(); let op = field(&p, "op").unwrap();
+                let wellformed = if op == "with" || op == "rm" { unhex_list(arg).len() == names.len() } else { let m = parse_pairs(arg); m.len() == names.len() && names.iter().all(|n| m.iter().any(|kv| &kv.0 == n)) };
+                let want = if (op == "with" || op == "withmap") && wellformed { "ok" } else { "err" }; // removing from a fresh vector finds nothing: Err either way
+                if out != "panic" && out != want { fails.push(Failure { class: "invalid-input-accepted".into(), detail: format!("{} returned {}, expected {} (declared labels {:?})", line, out, want, names) }); } }
             stats.hit(&format!("outcome:{}", out));
             if out == "panic" { fails.push(Failure { class: "panic".into(), detail: format!("a Result-returning API panicked: {}", line) }); }
             stats.seen(&[line.clone()], out == "err");
